@@ -30,19 +30,9 @@ def tkz : Nat → Bytes → Bool → List Nat → List Tok
     let x := lx r inStr
     if x.1 == eof then [] else
     let t := classify inStr x.1 x.2.1
-    match t with
-    | .bad _ => [t]
-    | .strQuery => t :: tkz fuel x.2.2.1 x.2.2.2 (0 :: stk)
-    | .ch 40 =>
-      (match stk with
-       | n :: rest => t :: tkz fuel x.2.2.1 x.2.2.2 ((n + 1) :: rest)
-       | [] => t :: tkz fuel x.2.2.1 x.2.2.2 [])
-    | .ch 41 =>
-      (match stk with
-       | 0 :: rest => t :: tkz fuel x.2.2.1 true rest
-       | (n + 1) :: rest => t :: tkz fuel x.2.2.1 x.2.2.2 (n :: rest)
-       | [] => t :: tkz fuel x.2.2.1 x.2.2.2 [])
-    | _ => t :: tkz fuel x.2.2.1 x.2.2.2 stk
+    if t.isBad then [t] else
+    let st := stepStk t stk
+    t :: tkz fuel x.2.2.1 (if st.2 then true else x.2.2.2) st.1
 
 theorem tokenize_tkz (fuel : Nat) : ∀ (s : LState) (stk : List Nat),
     tokenize fuel s stk = tkz fuel s.rest s.inString stk := by
@@ -50,16 +40,17 @@ theorem tokenize_tkz (fuel : Nat) : ∀ (s : LState) (stk : List Nat),
   | zero => intro s stk; rfl
   | succ fuel ih =>
     intro s stk
-    have h := lex_lx s
-    simp only [Prod.mk.injEq] at h
-    obtain ⟨h1, h2, h3, h4⟩ := h
+    have h1 : (lx s.rest s.inString).1 = (lex s).1 := by rw [← lex_lx]
+    have h2 : (lx s.rest s.inString).2.1 = (lex s).2.1 := by rw [← lex_lx]
+    have h3 : (lx s.rest s.inString).2.2.1 = (lex s).2.2.rest := by rw [← lex_lx]
+    have h4 : (lx s.rest s.inString).2.2.2 = (lex s).2.2.inString := by rw [← lex_lx]
     unfold tokenize tkz
-    simp only [← h1, ← h2, ← h3, ← h4]
+    simp only [h1, h2, h3, h4, ih]
     split
     · rfl
-    · split <;> (try rfl) <;> (try (rw [ih]))
-      · split <;> rw [ih]
-      · split <;> rw [ih]
+    · split
+      · rfl
+      · split <;> simp_all
 
 theorem tokensOf_tkz (src : Bytes) : tokensOf src = tkz (src.length + 2) src false [] := by
   simp [tokensOf, tokenize_tkz, LState.init]
